@@ -21,6 +21,9 @@ def verdict : String → Option FP.Verdict
   | "badMethod" => some .badMethod | "badUser" => some .badUser | "sessErr" => some .sessErr
   | "proxy" => some .proxy | _ => none
 
+def target : String → Option FP.Target
+  | "up" => some .up | "dial" => some .dialFails | "write" => some .writeFails | _ => none
+
 def evOf (s : String) : Option FP.Ev :=
   if s == "pe" then some .peerEOF else if s == "te" then some .targetEOF
   else match s.splitOn ":" with
@@ -39,11 +42,17 @@ def step (st : St) (cmd : String) (m : KV) : Option (St × String) :=
     let v ← (get m "v").bind verdict
     let es ← get m "evs"
     let evs ← if es == "-" then some [] else (es.splitOn ";").mapM evOf
-    let (a, r) := FP.run cs v evs
+    -- `tg` (how the redirect target behaves) is optional: absent = up
+    let tg ← match get m "tg" with
+      | none => some FP.Target.up
+      | some t => target t
+    let (a, r) := FP.run cs v tg evs
+    -- closed=<peer conn closed><target conn closed>
+    let cl := s!" closed={b01 r.peerClosed}{b01 r.targetClosed}"
     let s := match a with
-      | .web => s!"web target={Hex.ofBytes r.toTarget.flatten} peer={Hex.ofBytes r.toPeer.flatten}"
-      | .close => "close"
-      | .drop => "drop"
+      | .web => s!"web target={Hex.ofBytes r.toTarget.flatten} peer={Hex.ofBytes r.toPeer.flatten}" ++ cl
+      | .close => "close" ++ cl
+      | .drop => "drop" ++ cl
       | .handshake => "handshake"
       | .other => "other"
     pure (st, s)
